@@ -53,30 +53,6 @@ open Sge Sge.Genesis
 -- ---------------------------------------------------------------------------------------------
 -- the measures, in words
 
-theorem filter_contains_cons (u : Nat) (q : List Nat) (hu : u ∉ q) : ∀ (l : List (Nat × Nat × Nat × Nat)),
-    (l.filter (fun x => (u :: q).contains x.1)).length =
-      (l.filter (fun x => x.1 == u)).length + (l.filter (fun x => q.contains x.1)).length := by
-  intro l
-  induction l with
-  | nil => rfl
-  | cons x xs ih =>
-    simp only [List.filter_cons, List.contains_cons]
-    by_cases h1 : x.1 = u
-    · have h2 : q.contains x.1 = false := by rw [h1]; simpa using hu
-      simp only [h1, beq_self_eq_true, Bool.true_or, if_true, List.length_cons]
-      rw [h1] at h2
-      simp only [h2, Bool.false_eq_true, if_false]
-      have := ih
-      simp only [List.contains_cons] at this
-      omega
-    · have h1' : (x.1 == u) = false := by simpa using h1
-      simp only [h1', Bool.false_or, Bool.false_eq_true, if_false]
-      have := ih
-      simp only [List.contains_cons] at this
-      split
-      · simp only [List.length_cons]; omega
-      · exact this
-
 /-- `pendingWork s` is the number of entries of the pending index whose market waits in the market queue (the queue
     has no duplicates in reachable states) -/
 theorem pendingWork_eq_count {s : State} (hR : Reach s) :
@@ -176,25 +152,6 @@ theorem c05_messages_add_no_work (s : State) (op : Op) (hR : Reach s) (hne : op 
 -- ---------------------------------------------------------------------------------------------
 -- the bound
 
-/-- The explicit bound, in successful end-blocks, for the order-book queue and the first `k` markets of the market
-    queue of `s`, for batch sizes at least `N` (bets per block) and `M` (participations per block):
-        ⌊W/N⌋ + ⌊P/M⌋ + 1,   W = pending bets of the k markets,
-                              P = unpaid participations of the queued books + of the books of the k markets
-    (⌊P/M⌋ + 1 when k = 0 or the market queue is empty; 0 when nothing is queued at all). -/
-def settleBound (N M : Nat) (s : State) (k : Nat) : Nat :=
-  if s.mqueue.take k ≠ [] then
-    wsum (pendCount s) (s.mqueue.take k) / N + (partWork s + wsum (unpaidOf s) (s.mqueue.take k)) / M + 1
-  else if s.obqueue ≠ [] then partWork s / M + 1
-  else 0
-
-theorem settleBound_eq (N M : Nat) (s : State) (k : Nat) :
-    settleBound N M s k = blocks N M s (s.mqueue.take k) s.obqueue := by
-  unfold settleBound blocks partWork
-  rw [wsum_append]
-  split
-  · omega
-  · rfl
-
 /-- C05.h  THE BOUND, for every reachable state and every continuation of the history.
     Let `s` be a reachable state (`Reach s`: the bet-index, custody/settlement and queue invariants, which hold after
     every history from the empty chain — `reach_init`, `run_reach`). Let `ops` be ANY operations signed by user
@@ -219,36 +176,6 @@ theorem c05_settles_within (s : State) (hR : Reach s) (k N M : Nat) (hN : 0 < N)
   · cases h
   · cases h
   · exact Done.fully hR' h
-
-theorem wsum_take_le (w : Nat → Nat) (l : List Nat) (k : Nat) : wsum w (l.take k) ≤ wsum w l := by
-  have : wsum w l = wsum w (l.take k) + wsum w (l.drop k) := by rw [← wsum_append, List.take_append_drop]
-  omega
-
-/-- the bound for everything that is queued: ⌊pendingWork/N⌋ + ⌊(partWork + participations of the queued markets)/M⌋ + 1 -/
-def settleBoundAll (N M : Nat) (s : State) : Nat :=
-  pendingWork s / N + (partWork s + wsum (unpaidOf s) s.mqueue) / M + 1
-
-theorem settleBound_le_all (N M : Nat) (s : State) (k : Nat) : settleBound N M s k ≤ settleBoundAll N M s := by
-  unfold settleBound settleBoundAll pendingWork
-  have h1 : wsum (pendCount s) (s.mqueue.take k) / N ≤ wsum (pendCount s) s.mqueue / N :=
-    Nat.div_le_div_right (wsum_take_le _ _ _)
-  have h2 : (partWork s + wsum (unpaidOf s) (s.mqueue.take k)) / M ≤ (partWork s + wsum (unpaidOf s) s.mqueue) / M :=
-    Nat.div_le_div_right (by have := wsum_take_le (unpaidOf s) s.mqueue k; omega)
-  have h3 : partWork s / M ≤ (partWork s + wsum (unpaidOf s) s.mqueue) / M := Nat.div_le_div_right (by omega)
-  split
-  · exact Nat.add_le_add (Nat.add_le_add h1 h2) (Nat.le_refl 1)
-  · split
-    · exact Nat.add_le_add_right (Nat.le_trans h3 (Nat.le_add_left _ _)) 1
-    · exact Nat.zero_le _
-
-/-- the bound in the ⌈·⌉ form of the property statement: ⌊W/N⌋ + ⌊P/M⌋ + 1 ≤ ⌈W/N⌉ + ⌈P/M⌉ + 1 -/
-theorem settleBoundAll_le_ceil (N M : Nat) (hN : 0 < N) (hM : 0 < M) (s : State) :
-    settleBoundAll N M s ≤ (pendingWork s + N - 1) / N + (partWork s + wsum (unpaidOf s) s.mqueue + M - 1) / M + 1 := by
-  unfold settleBoundAll
-  have h1 : pendingWork s / N ≤ (pendingWork s + N - 1) / N := Nat.div_le_div_right (by omega)
-  have h2 : (partWork s + wsum (unpaidOf s) s.mqueue) / M ≤ (partWork s + wsum (unpaidOf s) s.mqueue + M - 1) / M :=
-    Nat.div_le_div_right (by omega)
-  exact Nat.add_le_add (Nat.add_le_add h1 h2) (Nat.le_refl 1)
 
 /-- C05.i  Everything that is queued in a reachable state `s` — every market waiting for bet settlement and every book
     waiting for the pay-out of its participations — is completely settled after
@@ -317,8 +244,9 @@ theorem c05_no_halt_partial {s : State} (hR : Reach s) (hH : HInv s) (hV : Solve
   exact ⟨by rw [he]; exact (fun e => nomatch e), rfl, hS'.reach, hS'.wf, hS'.solv⟩
 
 /-- C05.l  (partial: solvent histories)  From the empty chain, through ANY history of operations signed by user
-    accounts in which the state is solvent whenever an end-block starts, no end-block halts (begin-block processing of
-    the core modules is empty). Nothing else is assumed: reachability and well-formedness are invariants. -/
+    accounts in which the state is solvent whenever an end-block starts, no end-block halts (the core modules have no
+    begin-block work: `newBlock` only sets height and time). Nothing else is assumed: reachability and well-formedness
+    are invariants. -/
 theorem c05_no_halt_history_partial (p : Params) (bal : List (Nat × Int)) (h t : Nat)
     (h0 : getBal bal ACC_POOL = 0 ∧ getBal bal ACC_BETFEE = 0 ∧ getBal bal ACC_HOUSEFEE = 0)
     (ops : List Op) (hwf : signedOk ops = true) :
